@@ -23,6 +23,8 @@ import (
 	componentdialer "github.com/daeuniverse/dae/component/outbound/dialer"
 	verifsim "github.com/daeuniverse/dae/internal/verifsim"
 	D "github.com/daeuniverse/outbound/dialer"
+	"github.com/cilium/ebpf"
+	"github.com/daeuniverse/dae/pkg/config_parser"
 	"github.com/daeuniverse/outbound/netproxy"
 	dnsmessage "github.com/miekg/dns"
 	"github.com/sirupsen/logrus"
@@ -92,7 +94,15 @@ func relaySetup(t *testing.T) {
 	}
 	logger := logrus.New()
 	logger.SetOutput(io.Discard)
-	b, err := NewRoutingMatcherBuilder(logger, nil, map[string]uint8{"direct": 0, "block": 1, "g": 2}, nil, "g")
+	// one name is routed to the built-in direct outbound when the flow is routed again by name (domain++)
+	rules, err := relayParseRules(`routing {
+    domain(full: tls12.example.net) -> direct
+    fallback: g
+}`)
+	if err != nil {
+		t.Fatalf("relay rules: %v", err)
+	}
+	b, err := NewRoutingMatcherBuilder(logger, rules, map[string]uint8{"direct": 0, "block": 1, "g": 2}, nil, "g")
 	if err != nil {
 		t.Fatalf("matcher builder: %v", err)
 	}
@@ -100,6 +110,26 @@ func relaySetup(t *testing.T) {
 	if err != nil {
 		t.Fatalf("matcher: %v", err)
 	}
+}
+
+// relayParseRules extracts the routing rules of a config text.
+func relayParseRules(text string) ([]*config_parser.RoutingRule, error) {
+	sections, err := config_parser.Parse(text)
+	if err != nil {
+		return nil, err
+	}
+	var rules []*config_parser.RoutingRule
+	for _, sec := range sections {
+		if sec.Name != "routing" {
+			continue
+		}
+		for _, it := range sec.Items {
+			if r, ok := it.Value.(*config_parser.RoutingRule); ok {
+				rules = append(rules, r)
+			}
+		}
+	}
+	return rules, nil
 }
 
 func stamped(n int, tag byte) []byte {
@@ -136,12 +166,18 @@ func relayScenario(s *verifsim.Sim) {
 	// half of the runs let the simulated streams answer the gather write's "is more
 	// queued in the socket" question (TIOCINQ on a real *net.TCPConn): relay_hooks.go.txt
 	verifRelaySeamReset(T.Chance(1, 2))
+	// the datapath's decision for the first packet: none recorded (userspace routing), or - what
+	// the kernel would decide from the address alone with these rules - the proxy group
+	preRouted := T.Chance(1, 2)
+	verifRelayRouting = func(src, dst netip.AddrPort, l4proto uint8) (*bpfRoutingResult, error) {
+		if preRouted {
+			return &bpfRoutingResult{Outbound: 2}, nil
+		}
+		return nil, ebpf.ErrKeyNotExist
+	}
 	port := []uint16{443, 80, 53, 22, 8443}[T.Pick(4, 2, 3, 1, 1)]
 	sniffTimeout := []time.Duration{100 * time.Millisecond, 20 * time.Millisecond, 500 * time.Millisecond}[T.Choose(3)]
-	dialMode := consts.DialMode_DomainPlus
-	if T.Chance(1, 5) {
-		dialMode = consts.DialMode_Ip
-	}
+	dialMode := []consts.DialMode{consts.DialMode_DomainPlus, consts.DialMode_Ip, consts.DialMode_DomainCao}[T.Pick(3, 1, 2)]
 	var hello *relayHello
 	if !T.Chance(1, 6) { // else: server-first protocol, the client sends nothing at first
 		h := relayCorpus[T.Choose(len(relayCorpus))]
@@ -163,7 +199,13 @@ func relayScenario(s *verifsim.Sim) {
 	opt := &componentdialer.GlobalOption{Log: logger, CheckInterval: 30 * time.Second}
 	nop := func(bool, *componentdialer.NetworkType, bool) {}
 	fixed := ob.DialerSelectionPolicy{Policy: consts.DialerSelectionPolicy_Fixed}
-	dd := componentdialer.NewDialer(nopDialer{}, opt, componentdialer.InstanceOption{DisableCheck: true}, &componentdialer.Property{Property: D.Property{Name: "direct"}})
+	viaDirect := false
+	sdDirect := &verifsim.SimDialer{Name: "direct"}
+	sdDirect.Plan = func(ctx context.Context, network, addr string) verifsim.DialPlan {
+		viaDirect = true
+		return sd.Plan(ctx, network, addr)
+	}
+	dd := componentdialer.NewDialer(sdDirect, opt, componentdialer.InstanceOption{DisableCheck: true}, &componentdialer.Property{Property: D.Property{Name: "direct"}})
 	defer dd.Close()
 	groups := []*ob.DialerGroup{
 		ob.NewDialerGroup(opt, "direct", []*componentdialer.Dialer{dd}, []*componentdialer.Annotation{{}}, fixed, nop),
@@ -511,8 +553,23 @@ func relayScenario(s *verifsim.Sim) {
 		s.Failf("c05-corrupt-r2l", "%s: client received %d bytes that are not a prefix of the %d bytes the upstream sent (first difference at %d)", desc, len(o.cliGot), len(s2c), firstDiff(o.cliGot, s2c))
 		return
 	}
+	// C18 at the node: a flow that ends on a built-in outbound (here: routed again by its sniffed
+	// name to direct) is dialled by its original destination address, never by the name
+	if o.tDial >= 0 && viaDirect {
+		s.Probe("relay.rerouted-to-direct")
+		if o.dialTarget != dstAddr.String() {
+			s.Failf("c18-name-sent-through-builtin-outbound", "%s: the flow was routed to the built-in direct outbound but its dialer received %q instead of the original destination %s", desc, o.dialTarget, dstAddr)
+			return
+		}
+	}
+	if dialMode == consts.DialMode_DomainCao && hello != nil && hello.name == "tls12.example.net" && o.tDial >= 0 && !viaDirect && !o.faultFired {
+		if h, _, err := net.SplitHostPort(o.dialTarget); err == nil && strings.EqualFold(h, hello.name) {
+			s.Failf("c18-not-rerouted", "%s: domain++ sent the sniffed name %q to the proxy group although the rules route that name to direct", desc, hello.name)
+			return
+		}
+	}
 	// C06: the name handed to the dialer
-	if o.tDial >= 0 {
+	if o.tDial >= 0 && !viaDirect {
 		host := o.dialTarget
 		if h, _, err := net.SplitHostPort(o.dialTarget); err == nil {
 			host = h
@@ -657,7 +714,7 @@ func TestSimC05(t *testing.T) {
 		Prop: "C05", Name: "relay", MaxSteps: 40000, Scenario: relayScenario,
 		Reset: func() { componentdialer.ResetGlobalProxyStateForReload() },
 		Real:  []string{"control.ControlPlane.handleConn (DNS-over-TCP detection, bufioConn, prefetchForTcpSniff, prefixedConn, negative sniff cache), routeDial/chooseProxyDialer/ChooseDialTarget, RelayTCPContextWithRecords: relayCore.run, defaultRelayCopyEngine (gather prefix write, continuation copy, buffered loop)", "component/sniffing ConnSniffer / Sniffer stream path (TLS + HTTP)", "real userspace RoutingMatcher, DialerGroup, dialer.Dialer"},
-		Stubs: []string{"client and upstream connections: simulated streams (not *net.TCPConn): splice and writev system calls are not executed; the TIOCINQ question of the gather write is answered by the simulated stream in half of the runs (overlay seam relay_hooks.go.txt)", "conn_state/routing hand-over lookup: no bpf objects, handleConn takes its documented userspace-routing fallback", "DNS controller absent: valid DNS-over-TCP frames on port 53 fall through to the relay"},
+		Stubs: []string{"client and upstream connections: simulated streams (not *net.TCPConn): splice and writev system calls are not executed; the TIOCINQ question of the gather write is answered by the simulated stream in half of the runs (overlay seam relay_hooks.go.txt)", "conn_state/routing hand-over lookup: scripted through an overlay seam (no record = documented userspace-routing fallback, or the proxy group the datapath would pick from the address alone)", "DNS controller absent: valid DNS-over-TCP frames on port 53 fall through to the relay"},
 		Rule:  "tape draws destination port (443/80/53/22/8443), dial mode, sniff timeout, first bytes (TLS ClientHello with/without SNI from crypto/tls, HTTP/1 heads, SSH banner, TLS-looking junk, DNS frame, or nothing = server-first), cut points and gaps of the first bytes relative to the timeout, payload sizes up to 70 KB, mid-connection idle gaps up to 25 s, order of the two half-closes, late data inside the grace period, dial delay; fault runs add dial failure, upstream write error after k bytes, client reset; the scheduler re-segments and delays every delivery",
 	})
 }
